@@ -139,6 +139,16 @@ func VMicro() {
 	vObserve("m.bit", vB(a8&(1<<(n&7)) != 0))
 	vObserve("m.ite", uint64(vIteU8(a8 < b8, a8, b8)))
 	vObserve("m.bool", vB(vAnd(a8 < b8, vOr(a16 == b16, !(a32 > b32)))))
+}
+
+// Aggregate encodings: ground tables read at a symbolic index (multiplexer
+// trees), block copies and appends with symbolic counts (ArrCopy terms), copies
+// of struct elements, the interpreted bytes.Buffer.  Kept apart from VMicro
+// (and run as few jobs) because every symbolic count forks.
+func VMicroAgg() {
+	a8, b8 := vU8("a8"), vU8("b8")
+	a16, b16 := vU16("a16"), vU16("b16")
+	n := vU8("shift")
 	// aggregates: ground table read at a symbolic index (multiplexer encoding),
 	// block copies and appends with symbolic counts (ArrCopy terms), bytes.Buffer
 	vObserve("tbl.sq", uint64(vMicroTable[a8]))
@@ -148,8 +158,8 @@ func VMicro() {
 	for i := range buf {
 		buf[i] = uint8(0xa0 + i)
 	}
-	cnt := int(a8 % 17)
-	off := int(b8 % 8)
+	cnt := int(a8 % 14) // never more than the destination holds: no fork on the minimum
+	off := 3
 	got := copy(buf[off:], src[:cnt])
 	vObserve("copy.n", uint64(got))
 	vObserve("copy.at", uint64(buf[int(n%16)]))
@@ -170,7 +180,7 @@ func VMicro() {
 	copy(ps[1:], ps[:3]) // overlapping copy of struct elements
 	vObserve("copy.struct", uint64(ps[3].a)<<8|uint64(ps[2].b))
 	qs := ps[:0]
-	for _, p := range ps {
+	for _, p := range ps[:2] {
 		if p.a&1 == 0 {
 			qs = append(qs, p) // in-place filter: append into the same backing array
 		}
